@@ -237,7 +237,9 @@ def check_standard_npy(out, path, f, where):
 def run_store(tape, out, fs, root, estore, kind):
     dtype = tape.choice('dtype', DTYPES)
     rshape = tape.choice('row_shape', [(), (2,), (3,), (2, 2)])
-    bs = tape.int('batch_size', 1, 6)
+    # mostly small batches (many crash points per byte), sometimes batches larger than the
+    # small Python buffers, so that one append is several raw writes or bypasses the buffer
+    bs = tape.choice('batch_size', [1, 2, 3, 4, 5, 6, 1, 2, 3, 17, 40])
     gen = Gen(dtype, rshape, tape)
     path = os.path.join(root, 'a.npy')
     f = FileModel(path, dtype, rshape)
@@ -250,9 +252,11 @@ def run_store(tape, out, fs, root, estore, kind):
     def open_store(n_batches=None):
         if array_level:
             return estore.NpyArray(path)
+        # the store is given the file name or an NpyArray opened by the caller
+        target = estore.NpyArray(path) if tape.chance('store_over_array_object', 1, 4) else path
         if n_batches is not None:
-            return estore.NpyStore(path, bs, n_batches=n_batches)
-        return estore.NpyStore(path, bs)
+            return estore.NpyStore(target, bs, n_batches=n_batches)
+        return estore.NpyStore(target, bs)
 
     store = open_store()
     nops = tape.int('n_ops', 3, 14)
